@@ -122,11 +122,14 @@ CostLaws ==
 Op(g, p, loc) == [g |-> g, p |-> p, loc |-> loc, t |-> <<[idx |-> 0, ph |-> 0]>>, ops |-> <<>>]
 Perms(S) == {s \in [1..Cardinality(S) -> S] : \A i, j \in 1..Cardinality(S) : i # j => s[i] # s[j]}
 Locs(rr, k) == UNION {Perms(S) : S \in {T \in SUBSET (0..Len(rr) - 1) : Cardinality(T) = k}}
+\* (MaxDim doubles as the switch for the richer alphabet in SpecCircuits: MaxDim >= 2 adds RZ, CS)
+Rich == MaxDim >= 2
 Alphabet(rr) ==
   {Op(g, <<0>>, l) : g \in {"X", "T"}, l \in {l \in Locs(rr, 1) : rr[l[1] + 1] = 2}}
-  \cup {Op("RZ", <<3>>, l) : l \in {l \in Locs(rr, 1) : rr[l[1] + 1] = 2}}
+  \cup {Op("RZ", <<3>>, l) : l \in {l \in Locs(rr, 1) : Rich /\ rr[l[1] + 1] = 2}}
   \cup {Op(g, <<0>>, l) : g \in {"Shift", "Clock"}, l \in {l \in Locs(rr, 1) : rr[l[1] + 1] = 3}}
-  \cup {Op(g, <<0>>, l) : g \in {"CX", "CS", "ISWAP"}, l \in {l \in Locs(rr, 2) : rr[l[1] + 1] = 2 /\ rr[l[2] + 1] = 2}}
+  \cup {Op(g, <<0>>, l) : g \in {"CX", "ISWAP"}, l \in {l \in Locs(rr, 2) : rr[l[1] + 1] = 2 /\ rr[l[2] + 1] = 2}}
+  \cup {Op("CS", <<0>>, l) : l \in {l \in Locs(rr, 2) : Rich /\ rr[l[1] + 1] = 2 /\ rr[l[2] + 1] = 2}}
   \cup {Op(g, <<0>>, l) : g \in {"CSUM", "CPI"}, l \in {l \in Locs(rr, 2) : rr[l[1] + 1] = 3 /\ rr[l[2] + 1] = 3}}
   \cup {Op("ACP", <<5>>, l) : l \in {l \in Locs(rr, 2) : rr[l[1] + 1] # rr[l[2] + 1]}}
   \cup {Op("CCX", <<0>>, l) : l \in {l \in Locs(rr, 3) : \A i \in 1..3 : rr[l[i] + 1] = 2}}
